@@ -66,6 +66,12 @@ Lemma frag_a2c_loss ec vc he advs lps rets vs ents :
        (qmean (qmap2 (fun ret v => (ret - v) * (ret - v)) rets vs)) ec vc.
 Proof. unfold a2c_batch_Q. cbn [fst]. rewrite Qred_correct. symmetry. apply frag_losses. Qed.
 
+(* signs and bounds that the correspondence alone used to carry (review B, C07 item 4) *)
+Lemma frag_signs a lp m c cv cr :
+  sac_actor_term_frag a lp m == a * lp - m /\
+  ppo_clip_lo c == 1 - c /\ ppo_clip_hi c == 1 + c /\ ppo_vclip_lo cv cr == - cv.
+Proof. unfold sac_actor_term_frag, ppo_clip_lo, ppo_clip_hi, ppo_vclip_lo. repeat split; ring. Qed.
+
 (* ---------------- (b) Q twins compute the real-valued definitions ---------------- *)
 Local Open Scope R_scope.
 
